@@ -692,7 +692,11 @@ func verifC28Mutate(r *verifutil.Rand, src []byte, from int) []byte {
 					}
 				}
 			default:
-				verifC28Put32(b, fd.off, verifC28Value(r, verifC28BE32(b, fd.off), len(b)))
+				v := verifC28Value(r, verifC28BE32(b, fd.off), len(b))
+				if fd.kind == "trun.count" && r.Chance(1, 4) {
+					v = 0xffffffff // go-mp4: "as many entries as fit"
+				}
+				verifC28Put32(b, fd.off, v)
 			}
 		case c < 14: // truncate
 			if len(b) > from {
